@@ -9,6 +9,7 @@ increases the objective is observed by the check on the implementation.
 -/
 import DarsiaModel.Balance
 import DarsiaProofs.Balance
+import DarsiaGen.ColorDtypes
 namespace Darsia.C12
 open Darsia.Affine Darsia.Balance
 
@@ -262,5 +263,19 @@ theorem clip01_range (x : Rat) : 0 ≤ clip01 x ∧ clip01 x ≤ 1 ∧ (0 ≤ x 
   unfold clip01
   refine ⟨le_max_left _ _, max_le (by norm_num) (min_le_right _ _), fun h0 h1 => ?_⟩
   rw [min_eq_left h1, max_eq_right h0]
+
+/-! ## Round 4: dtype path of `ColorCorrection.correct_array` (G1 table, re-tabulated from the running code) -/
+
+/-- every accepted input gives a float32 result: inactive corrections for every tabulated dtype, active ones (both
+balancing branches) for uint8, uint16, float32, float64. -/
+theorem color_dtype_float32 :
+    (∀ dt ∈ Gen.CDT.all, ∀ colour ∈ [true, false], Gen.colorCorrectionDtype dt false colour = .ok .f32) ∧
+    (∀ dt ∈ [Gen.CDT.u8, .u16, .f32, .f64], ∀ colour ∈ [true, false], Gen.colorCorrectionDtype dt true colour = .ok .f32) := by
+  decide
+
+/-- every other tabulated dtype is rejected by an active correction with a ValueError (never converted silently). -/
+theorem color_dtype_rejects :
+    ∀ dt ∈ [Gen.CDT.i16, .i64, .b], ∀ colour ∈ [true, false], Gen.colorCorrectionDtype dt true colour = .error .value := by
+  decide
 
 end Darsia.C12
